@@ -345,6 +345,13 @@ func (o *moneyOracle) c05(e *Env, si *StepInfo) {
 				o.once(e, "C05", "C05.capacity", lab, "provider-reservation-changed", sp, fmt.Sprintf("cancelling never-started order %d changed provider %s used capacity %d->%d / shard collateral %s->%s", id, fmtAddr(sp), pp.UsedStorage, cp.UsedStorage, pp.TotalShardPledged.Amount, cp.TotalShardPledged.Amount))
 			}
 		}
+		// ... nor keeps a reservation made when the order was created (used capacity beyond the
+		// provider's stored shards must not have grown over the life of the order)
+		for _, sp := range sortedKeys(oi.ExcessAtStore) {
+			if now := usedExcess(cur, sp); now > oi.ExcessAtStore[sp] {
+				o.once(e, "C05", "C05.capacity", lab, "provider-keeps-reservation", sp, fmt.Sprintf("order %d ended before any completion but provider %s still has %d bytes of used capacity beyond its stored shards (%d before the order was created)", id, fmtAddr(sp), now, oi.ExcessAtStore[sp]))
+			}
+		}
 		// meta: back to the previously committed version, or gone together with its alias
 		cm, has := cur.Model.Metas[po.DataId]
 		if !oi.HadMeta {
